@@ -454,11 +454,11 @@ class World:
             ex.oblige("pre", "%s.%s" % (con.qualname, label), ex.spec_bool(clause, fr, {}),
                       exit_text="call", clause=clause)
         # old() snapshots
-        for text, tree in con.old_exprs():
+        for text, tree in con.old_exprs(cname):
             if text not in fr.old:
                 fr.old[text] = ex.spec_eval(text, fr, {})
         # frame
-        for path in con.modifies:
+        for path in list(con.modifies) + list(con.modifies_by_case.get(cname, [])):
             self.ext.havoc_path(ex, fr, path)
         # ghost effects (definitional counters: "one conversion attempt per call of this function")
         for g, delta in (getattr(con, "ghost_effect", None) or {}).items():
@@ -1035,6 +1035,13 @@ class World:
             ent = self.ext_table.get(key + "." + name)
             if ent is not None:
                 return ent(ex) if callable(ent) and not isinstance(ent, Val) else ent
+            if c.py.__module__.startswith("utype") and isinstance(c.py, type) and name in vars(c.py) and callable(vars(c.py)[name]):
+                # a method of a repository class read off the class (`type(other).__rand__`): the unbound function, under its contract
+                relpath = c.py.__module__.replace(".", "/") + ".py"
+                try:
+                    return self.repo_function(relpath, "%s.%s" % (c.py.__qualname__, name), ex)
+                except Exception:
+                    pass
             if c.py.__module__ == "builtins" and callable(getattr(c.py, name, None)) and not isinstance(getattr(c.py, name), type):
                 # a method of a builtin class read as an attribute (str.format looked up by getattr(origin, 'format', None)):
                 # a function object -- truthy, not a str; calling it is not modelled
